@@ -73,7 +73,10 @@ def gen_case(rng):
         else:
             cells = [[rng.randint(-1000, 1000) for _ in range(N)] for _ in range(T)]
         series.append(cells)
-    return {"W": W, "N": N, "kind": kind, "series": series}
+    out = {"W": W, "N": N, "kind": kind, "series": series}
+    if kind == "bits" and ns >= 2 and r_lay.random() < 0.35:
+        out["parent_views"] = True
+    return out
 
 
 def to_array(cells, kind):
@@ -131,6 +134,15 @@ def run(ctx):
     for ci, c in enumerate(cases):
         W = c["W"]
         arrs = [to_array(s, c["kind"]) for s in c["series"]]
+        if c.get("parent_views") and len(arrs) >= 2:
+            # the series as row-slice views of ONE parent array, listed in another order than they sit in it
+            order = list(range(1, len(arrs))) + [0]
+            parent = np.ascontiguousarray(np.vstack([arrs[i] for i in order]))
+            offs, pos = {}, 0
+            for i in order:
+                offs[i] = pos
+                pos += arrs[i].shape[0]
+            arrs = [parent[offs[i]:offs[i] + arrs[i].shape[0]] for i in range(len(arrs))]
         arrays.append(arrs)
         # the model sees the float64 bit pattern of every (widened) cell as an integer
         cell_bits = [[[int(x) for x in row] for row in bits(a)] for a in arrs]
